@@ -305,7 +305,7 @@ fn scenario(variant: &str, n: usize) -> Result<(), String> {
             }
         }
         "root-weaks-paced" => {
-            // The statement's liveness bound, default pacing, on a root that is made gray again
+            // The statement's liveness bound, under one of four pacings, on a root that is made gray again
             // (mutate_root) before every debt-driven call while it holds K weak pointers to values
             // nothing else reaches: re-visiting those pointers is no marking work, so a cycle that
             // woke with H allocations is finished before rho*H/(1-rho) more were made. Time is
@@ -313,10 +313,18 @@ fn scenario(variant: &str, n: usize) -> Result<(), String> {
             use gc_arena::arena::CollectionPhase;
             let k = 512 + n % 3584;
             let burst = 1 + (n / 4096) % 3;
-            let p = gc_arena::metrics::Pacing::DEFAULT;
+            let d = gc_arena::metrics::Pacing::DEFAULT;
+            // one of four pacings (dyadic factors; every path sums to rho < 1)
+            let p = match (n / 12288) % 4 {
+                0 => d,
+                1 => gc_arena::metrics::Pacing { sleep_factor: 0.5, min_sleep: 64, mark_factor: 0.25, trace_factor: 0.25, keep_factor: 0.25, drop_factor: 0.25, free_factor: 0.25 },
+                2 => gc_arena::metrics::Pacing { sleep_factor: 1.0, min_sleep: 0, mark_factor: 0.125, trace_factor: 0.5, keep_factor: 0.125, drop_factor: 0.5, free_factor: 0.25 },
+                _ => gc_arena::metrics::Pacing { sleep_factor: 0.25, min_sleep: d.min_sleep, mark_factor: 0.5, trace_factor: 0.0, keep_factor: 0.0, drop_factor: 0.125, free_factor: 0.125 },
+            };
             let rho = (p.mark_factor + p.trace_factor + p.keep_factor).max(p.drop_factor + p.free_factor).max(p.mark_factor + p.drop_factor + p.keep_factor);
             let mut arena = Arena::<Rootable![Watch<'_>]>::new(|mc| Watch { watch: Vec::new(), keep: (0..k).map(|i| Gc::new(mc, Cnt(i as u32))).collect() });
             let m = arena.metrics().clone();
+            m.set_pacing(p);
             arena.finish_cycle();
             if m.total_gc_count() != k || drops() != 0 {
                 return Err(format!("{k} values held by the root: after a full cycle total_gc_count reads {} and {} were destructed", m.total_gc_count(), drops()));
